@@ -235,7 +235,7 @@ def run(ctx):
 
 def search(ctx, reasons):
     rng = ctx.sub_rng('search')
-    cases = load_corpus() + gen_cases(rng, 200 if ctx.quick else 3000, ctx.quick)
+    cases = load_corpus() + gen_cases(rng, 80 if ctx.quick else 3000, ctx.quick)
     return run_cases(ctx, cases, use_model=False, procs=16)
 
 
